@@ -21,6 +21,8 @@ def check_case(case):
     elif fam == "phase":
         spec = spec_from_forest(case["f"], case["pal"], case["pol"], case["srs"])
         spec = with_phases(spec, PH3 if case.get("ph3") else PH2, {case["who"]: case["pc"]})
+        if case.get("pc_first"):
+            spec["pc_first"] = True
     elif fam == "sib":  # dead source next to a live one
         from .c01 import two_source_spec
         spec = two_source_spec(case["f"], case["f2"], case["pal"], 1, 0.37)
@@ -49,6 +51,8 @@ def gen_cases(tier):
                     if c["k"] in PHASE_LIST_KINDS:
                         for pc in (["a"], ["b"]):
                             yield dict(fam="phase", f=f, pal=pal, pol=1, srs=0.37, who=c["n"], pc=pc)
+                        # listed for an undefined phase only (= dead in every phase), configured before / after the system phases
+                        yield dict(fam="phase", f=f, pal=pal, pol=1, srs=0.37, who=c["n"], pc=["zz"], pc_first=(n % 2 == 0))
                         if tier != "quick":
                             yield dict(fam="phase", f=f, pal=pal, pol=-1, srs=0.0, who=c["n"], pc=["a", "c"], ph3=True)
         for n in ((4, 5) if tier == "quick" else (4, 5, 6)):
